@@ -234,7 +234,7 @@ Section Parser.
                 else
                   (* skip '=' (whatever the token is), leading space *)
                   let b3 := skip_space b2 in
-                  do v <- kv_val (S (length b3)) st1 b3 [];
+                  do v <- kv_val (3 * length b3 + 3) st1 b3 [];
                   let '(st2, val, b4) := v in
                   let val := match rev val with
                              | l :: r => match tk l with KSpace => rev r | _ => val end
